@@ -562,6 +562,10 @@ func (w *worker[T, JobType]) start() error {
 	switch w.status.Load() {
 	case initiated:
 	case running:
+		// reached when a further queue is bound to a running worker: the queue
+		// may already hold items (a persistent or distributed store), and
+		// nothing else would tell the event loop about them
+		w.notifyToPullNextJobs()
 		return ErrRunningWorker
 	default:
 		return ErrNotRunningWorker
